@@ -267,11 +267,146 @@ def check_epub_source():
     return r
 
 
+def check_pptx_shape_tree():
+    """read_pptx on one slide whose shape tree nests shapes in groups and in mc:AlternateContent (every shape with visible
+    text once; the Fallback branch is the alternative rendering of the same content)."""
+    import itertools
+    from replay import c02_docs as D
+    MCN = 'xmlns:mc="http://schemas.openxmlformats.org/markup-compatibility/2006"'
+    r = Result()
+
+    def frame(tok, y):
+        return ('<p:graphicFrame><p:nvGraphicFramePr><p:cNvPr id="9" name="t"/><p:cNvGraphicFramePr/><p:nvPr/></p:nvGraphicFramePr>'
+                f'<p:xfrm><a:off x="100" y="{y}"/><a:ext cx="10" cy="10"/></p:xfrm><a:graphic><a:graphicData uri="http://schemas.openxmlformats.org/drawingml/2006/table">'
+                f"<a:tbl><a:tr><a:tc><a:txBody><a:bodyPr/><a:p><a:r><a:t>{tok}</a:t></a:r></a:p></a:txBody></a:tc></a:tr></a:tbl></a:graphicData></a:graphic></p:graphicFrame>")
+    pic = '<p:pic><p:nvPicPr><p:cNvPr id="8" name="fallback picture"/><p:cNvPicPr/><p:nvPr/></p:nvPicPr><p:blipFill/><p:spPr/></p:pic>'
+    grp = lambda inner: '<p:grpSp><p:nvGrpSpPr><p:cNvPr id="7" name="g"/><p:cNvGrpSpPr/><p:nvPr/></p:nvGrpSpPr><p:grpSpPr/>' + inner + "</p:grpSp>"
+    ac = lambda choice, fallback: f'<mc:AlternateContent {MCN}><mc:Choice Requires="a14">{choice}</mc:Choice><mc:Fallback>{fallback}</mc:Fallback></mc:AlternateContent>'
+
+    def alts(tk, y):
+        sp = lambda: D.pptx_shape(10 + next(y), None, [[("t", tk.v())]], 1000 * next(y))
+        return {
+            "shape": lambda: sp(),
+            "table": lambda: frame(tk.v(), 1000 * next(y)),
+            "group": lambda: grp(sp() + sp()),
+            "nested-group": lambda: grp(sp() + grp(sp())),
+            "alternate-content": lambda: ac(sp(), pic),
+            "alternate-content-table": lambda: ac(frame(tk.v(), 1000 * next(y)), pic),
+            "alternate-content-in-group": lambda: grp(sp() + ac(sp(), pic)),
+            "group-in-alternate-content": lambda: ac(grp(sp() + sp()), pic),
+            # the Fallback branch renders the SAME content for old readers (here: as a shape with the same text)
+            "fallback-shape-repeats-choice": lambda: (lambda s_: ac(s_, s_))(sp()),
+        }
+    names = list(alts(Tok(), itertools.count(1)))
+    for k in (1, 2):
+        for combo in itertools.product(names, repeat=k):
+            tk, y = Tok(), itertools.count(1)
+            a = alts(tk, y)
+            title = D.pptx_shape(2, "title", [[("t", tk.v())]], 100)
+            shapes = "".join(a[c]() for c in combo)
+            slide = (f'<?xml version="1.0"?><p:sld {D.PPTX_XMLNS}><p:cSld><p:spTree><p:nvGrpSpPr><p:cNvPr id="1" name=""/><p:cNvGrpSpPr/><p:nvPr/></p:nvGrpSpPr><p:grpSpPr/>'
+                     + title + shapes + "</p:spTree></p:cSld></p:sld>")
+            out = _full_text("ms_modern.pptx_extractor", "read_pptx", D.pptx_from_slide_xml(slide), "pptx")
+            want = " ".join(f"V{i}v" for i in range(1, tk.n + 1))
+            case = "fallback-shape-repeats-choice" if "fallback-shape-repeats-choice" in combo else "alternate-content" if any("alternate" in c for c in combo) else ("groups" if any("group" in c for c in combo) else "plain")
+            ok, w = _cmp("pptx_extractor.read_pptx(...).get_full_text()", shapes, out, want)
+            r.add(case, ok, w)
+    return r
+
+
+def _cells_ok(cells, specs, inline_only):
+    """Every extracted cell string against its specified text: nothing lost / duplicated / leaked (nw image); pieces that a
+    block or line-break boundary separates stay separate words (token sequence).  Inline markup inside one word is only held
+    to the nw image (whitespace added inside it is not a violation of the statement)."""
+    if len(cells) != len(specs):
+        return False
+    for got, want, inl in zip(cells, specs, inline_only):
+        if TR.nw(got) != TR.nw(want):
+            return False
+        if not inl and tokens(got) != tokens(want):
+            return False
+    return True
+
+
+def check_epub_tables():
+    """Table cells of an EPUB chapter (documented through iterate_tables(), not part of the chapter text)."""
+    import itertools
+    E = _mod("epub_extractor")
+    from replay import c02_docs
+
+    def alts(tk):
+        return {
+            "plain": lambda: (lambda a: (a, a, False))(tk.v()),
+            "two-words": lambda: (lambda a, b: (a + " " + b, a + " " + b, False))(tk.v(), tk.v()),
+            "inline-markup": lambda: (lambda a, b: (f"{a}<sub>{b}</sub>", a + b, True))(tk.v(), tk.v()),
+            "br": lambda: (lambda a, b: (f"{a}<br/>{b}", a + "\n" + b, False))(tk.v(), tk.v()),
+            "paragraphs": lambda: (lambda a, b: (f"<p>{a}</p><p>{b}</p>", a + "\n" + b, False))(tk.v(), tk.v()),
+            "list": lambda: (lambda a, b: (f"<ul><li>{a}</li><li>{b}</li></ul>", a + "\n" + b, False))(tk.v(), tk.v()),
+            "div-then-text": lambda: (lambda a, b: (f"<div>{a}</div>{b}", a + "\n" + b, False))(tk.v(), tk.v()),
+            "removed-markup": lambda: (lambda a: (f"{a}<script>{tk.x('RM')}</script>", a, False))(tk.v()),
+        }
+    names = list(alts(Tok()))
+    r = Result()
+    for combo in itertools.chain(((n,) for n in names), itertools.product(names, repeat=2)):
+        tk = Tok()
+        a = alts(tk)
+        cells = [a[c]() for c in combo]
+        before, after = tk.v(), tk.v()
+        body = f"<p>{before}</p><table><tr>" + "".join(f"<td>{src}</td>" for src, _w, _i in cells) + f"</tr></table><p>{after}</p>"
+        files = dict(c02_docs.EPUB_SKELETON)
+        files["OEBPS/c1.xhtml"] = '<?xml version="1.0"?><html xmlns="http://www.w3.org/1999/xhtml"><head><title>c1</title></head><body>' + body + "</body></html>"
+        res = list(E.read_epub(c02_docs._zip(files)))
+        tables = [t.data if hasattr(t, "data") else t for x in res for t in x.iterate_tables()]
+        got = [c for t in tables for row in t for c in row]
+        ok = _cells_ok(got, [w for _s, w, _i in cells], [i for _s, _w, i in cells])
+        kinds = {"paragraphs", "list", "div-then-text"} & set(combo)
+        case = "block-boundaries-in-cell" if kinds else "cells"
+        w = None if ok else {"target": "epub_extractor.read_epub(...).iterate_tables()", "inputs": body, "expected": repr([w for _s, w, _i in cells]), "observed": repr(got),
+                             "kinds": ["merged" if [TR.nw(g) for g in got] == [TR.nw(w) for _s, w, _i in cells] else "lost-or-duplicated"]}
+        r.add(case, ok, w)
+    return r
+
+
+def check_odp_tables():
+    """Table cells of an ODP slide (documented through iterate_tables())."""
+    import itertools
+    OP = _mod("open_office.odp_extractor")
+    cell = lambda *kids: N(TR.TB_CELL, *kids)
+
+    def alts(tk):
+        return {
+            "plain": lambda: (lambda a: (cell(TR.tp(a)), a))(tk.v()),
+            "paragraphs": lambda: (lambda a, b: (cell(TR.tp(a), TR.tp(b)), a + "\n" + b))(tk.v(), tk.v()),
+            "span-and-break": lambda: (lambda a, b, c: (cell(N(TR.T_P, N(TR.T_SPAN, text=b), N(TR.T_LB, tail=c), text=a)), a + b + "\n" + c))(tk.v(), tk.v(), tk.v()),
+            "list": lambda: (lambda a, b: (cell(TR.tlist([TR.tp(a)], [TR.tp(b)])), a + "\n" + b))(tk.v(), tk.v()),
+            "comment": lambda: (lambda a: (cell(N(TR.T_P, N(TR.O_ANNOT, TR.tp(tk.x("COM"))), text=a)), a))(tk.v()),
+            "empty": lambda: (cell(), ""),
+        }
+    names = list(alts(Tok()))
+    r = Result()
+    for combo in itertools.chain(((n,) for n in names), itertools.product(names, repeat=2)):
+        tk = Tok()
+        a = alts(tk)
+        cells = [a[c]() for c in combo]
+        page = N(TR.q("draw", "page"), N(TR.D_FRAME, N(TR.D_TEXTBOX, N(TR.T_P, text=tk.v(), **{TR.q("text", "style-name"): "TitleText"}))),
+                 N(TR.D_FRAME, N(TR.TB_TABLE, N(TR.TB_ROW, *[c for c, _w in cells]))))
+        from replay import c02_docs
+        doc = N(TR.q("office", "document-content"), N(TR.q("office", "body"), N(TR.q("office", "presentation"), page)))
+        res = list(OP.read_odp(c02_docs.odf_from_content_xml(_xml(doc), "application/vnd.oasis.opendocument.presentation"), path="d.odp"))
+        tables = [t.data if hasattr(t, "data") else t for x in res for t in x.iterate_tables()]
+        got = [c for t in tables for row in t for c in row]
+        ok = _cells_ok(got, [w for _c, w in cells], [False] * len(cells))
+        w = None if ok else {"target": "odp_extractor.read_odp(...).iterate_tables()", "inputs": page.brief(), "expected": repr([w for _c, w in cells]), "observed": repr(got), "kinds": ["cells"]}
+        r.add("comment" if "comment" in combo else "cells", ok, w)
+    return r
+
+
 def check_odp_slide():
+    import itertools
     OP = _mod("open_office.odp_extractor")
     f = _resolve(OP, "_extract_slide", 4, ["body_text", "other_text"])
     r = Result()
-    for case, page in TR.gen_odp_pages():
+    for case, page in itertools.chain(TR.gen_odp_pages(), TR.gen_odp_shape_pages()):
         if f:
             slide, _n = f(None, to_et(page), 1)
             out = slide.text_combined
@@ -329,6 +464,12 @@ def _ods_table(grid, row_repeat=None, cell_repeat=None):
                 att[TR.q("table", "number-columns-repeated")] = str(cell_repeat[(ri, ci)])
             if v == "":
                 cells.append(N(TR.TB_CELL, **att))
+            elif isinstance(v, tuple):
+                # typed cell: (value-type, value, displayed text); the value attribute is what the sheet text shows
+                vt, val, shown = v
+                att[TR.q("office", "value-type")] = vt
+                att[TR.q("office", {"boolean": "boolean-value", "date": "date-value", "time": "time-value"}.get(vt, "value"))] = val
+                cells.append(N(TR.TB_CELL, N(TR.T_P, text=shown), **att))
             else:
                 att[TR.q("office", "value-type")] = "string"
                 cells.append(N(TR.TB_CELL, *[N(TR.T_P, text=line) for line in v.split("\n")], **att))
@@ -354,6 +495,34 @@ def check_ods_sheet():
         ok, w = _cmp("ods_extractor._extract_sheet(...).text", t.brief(), sheet_text(t), TR.sheet_text(grid))
         r.add("grid", ok, w)
     # repeated rows / cells: the repeated content is source content the same number of times
+    # typed cells: numbers, booleans, currency ... (falsy values such as 0 / false are values, not blanks)
+    import itertools
+    kinds = {"s": lambda tk: tk.v(), "e": lambda tk: "", "zero": lambda tk: ("float", "0", "0"), "num": lambda tk: ("float", "7", "7"),
+             "false": lambda tk: ("boolean", "false", "FALSE"), "true": lambda tk: ("boolean", "true", "TRUE"),
+             "cur0": lambda tk: ("currency", "0", "0,00 EUR"), "pct": lambda tk: ("percentage", "0.5", "50 %")}
+    shown = lambda v: v[1] if isinstance(v, tuple) else v
+    falsy = {"zero", "false", "cur0", "e"}
+    for nrows in (1, 2, 3):
+        head = itertools.product(kinds, repeat=(nrows - 1) * 2) if nrows < 3 else itertools.product(("s", "zero"), repeat=4)
+        for combo in (h + l for h in head for l in itertools.product(kinds, repeat=2)):
+            tk = Tok()
+            grid = [[kinds[combo[2 * r + c]](tk) for c in range(2)] for r in range(nrows)]
+            last = combo[-2:]
+            case = "typed-cells"
+            if set(last) <= falsy and set(last) != {"e"}:
+                case = "last-row-only-zero-or-false"
+            t = _ods_table(grid)
+            spec = TR.sheet_text([[shown(v) for v in row] for row in grid])
+            ok, w = _cmp("ods_extractor._extract_sheet(...).text", t.brief(), sheet_text(t), spec)
+            r.add(case, ok, w)
+    for big in (101, 150):
+        tk = Tok()
+        a = tk.v()
+        grid = [[a], [("float", "0", "0")], [tk.v()]]
+        t = _ods_table(grid, row_repeat={1: big})
+        spec = TR.sheet_text([[a]] + [["0"]] * big + [[shown(grid[2][0])]])
+        ok, w = _cmp("ods_extractor._extract_sheet(...).text", t.brief()[:300], sheet_text(t), spec)
+        r.add("repeated-zero-row", ok, w)
     tk = Tok()
     for rep in (2, 3):
         a, b, c = tk.v(), tk.v(), tk.v()
@@ -427,7 +596,7 @@ CHECKS = {
     "docx.paragraph": check_docx_paragraph, "docx.table": check_docx_table, "docx.body": check_docx_body,
     "odt.body": check_odt_body, "html.extract": check_html_body, "odf.element_text": check_odf_text,
     "ods.sheet": check_ods_sheet, "xlsx.format": check_xlsx_format, "xls.format": check_xls_format,
-    "dt.slides": check_dt_slides, "odp.slide": check_odp_slide, "html.source": check_html_source, "rtf.source": check_rtf_source, "epub.source": check_epub_source, "odg.text": check_odg_text, "pptx.paragraphs": check_pptx_paragraphs,
+    "dt.slides": check_dt_slides, "odp.slide": check_odp_slide, "html.source": check_html_source, "rtf.source": check_rtf_source, "pptx.shapes": check_pptx_shape_tree, "epub.tables": check_epub_tables, "odp.tables": check_odp_tables, "epub.source": check_epub_source, "odg.text": check_odg_text, "pptx.paragraphs": check_pptx_paragraphs,
 }
 
 
@@ -459,7 +628,7 @@ FUNC_OF_CHECK = {
     "odf.element_text": "_shared.py::element_text",
     "odg.text": "odg_extractor.py::_extract_full_text", "pptx.paragraphs": "pptx_extractor.py::_extract_text_from_paragraphs",
     "odp.slide": "odp_extractor.py::_extract_slide", "html.source": "html_extractor.py::read_html",
-    "rtf.source": "rtf_extractor.py::read_rtf", "epub.source": "epub_extractor.py::read_epub",
+    "rtf.source": "rtf_extractor.py::read_rtf", "pptx.shapes": "pptx_extractor.py::read_pptx", "epub.tables": "epub_extractor.py::read_epub.iterate_tables", "odp.tables": "odp_extractor.py::read_odp.iterate_tables", "epub.source": "epub_extractor.py::read_epub",
 }
 
 # obligation id fragment -> (check, cases, kinds)
@@ -476,6 +645,10 @@ WITNESS_MAP = [
     ("_extract_full_text_from_body/", "docx.body", ["plain", "content-control"], None),
     ("_shared.py::", "odf.element_text", None, None),
     ("_HtmlTreeBuilder.", "html.source", None, None),
+    ("_XhtmlTextExtractor.handle_endtag/ensures#buffered-chunks", "epub.tables", None, None),
+    ("_XhtmlTextExtractor.handle_endtag/ensures#closed-cell", "epub.tables", None, None),
+    ("_XhtmlTextExtractor.", "epub.source", None, None),
+    ("_extract_sheet/block#", "ods.sheet", None, None),
     ("_strip_rtf_full_with_pages/step", "rtf.source", None, None),
     ("_extract_slide/block#slide-text", "odp.slide", None, None),
     ("_extract_slide/block#speaker-notes", "odp.slide", None, ["leaked"]),
